@@ -5,7 +5,10 @@
  * (seed, history index) and consists of operations over several logical clients and two server key
  * sets: full handshake, resume by id / ticket / TLS 1.3 PSK, replay of any issued credential,
  * presentation of forged / edited / truncated / foreign / cross-version credentials (ClientHello
- * bytes edited on the wire with lengths fixed up, or a crafted client-side sslSessionId_t), clock
+ * bytes edited on the wire with lengths fixed up, or a crafted client-side sslSessionId_t; extended_master_secret
+ * removed / inserted before, directly after or after session_ticket, or flipped in the genuine client's
+ * configuration), TLS 1.3 tickets presented by a client whose clock is not the server's (the claimed ticket
+ * age is the client's business; expiry is judged on the server's clock only), clock
  * steps around both lifetimes, fatal alerts on live or resumed connections, close, abandon,
  * cache fill beyond 32 entries, ticket-key load / delete / rotate.
  *
@@ -22,9 +25,12 @@
 /* ---- the library's session clock is CLOCK_MONOTONIC (USE_HIGHRES_TIME on x86_64): virtualise it ---- */
 int __real_clock_gettime(clockid_t id, struct timespec *ts);
 #define MONO_BASE 1789990000L
+/* The client's clock is its own: while the library runs on behalf of the client endpoint (mx_actor 0) its clock reads
+   mx_now + g_cli_skew.  The server (and the model) live on mx_now.  Only TLS 1.3 clients consult the clock (ticket age). */
+static long g_cli_skew;
 int __wrap_clock_gettime(clockid_t id, struct timespec *ts)
 {
-    if (id == CLOCK_MONOTONIC) { ts->tv_sec = mx_now - MONO_BASE; ts->tv_nsec = 0; return 0; }
+    if (id == CLOCK_MONOTONIC) { ts->tv_sec = mx_now - MONO_BASE + (mx_actor == 0 ? g_cli_skew : 0); ts->tv_nsec = 0; return 0; }
     return __real_clock_gettime(id, ts);
 }
 
@@ -52,6 +58,7 @@ typedef struct {
     int psk, pskn;              /* pre_shared_key extension header offset, data length */
     int ids, id0, id0n;         /* identities vector length offset; first identity length offset; its length */
     int binders, b0, b0n;       /* binders vector length offset; first binder length byte offset; its length */
+    int emsAfterTkt;            /* both present and extended_master_secret follows session_ticket on the wire */
     int maxver;                 /* highest version offered (legacy_version or supported_versions) */
 } chi;
 
@@ -77,7 +84,7 @@ static int ch_parse(const unsigned char *b, int n, int dtls, chi *c)
     while (p + 4 <= end) {
         int t = rd16(b + p), l = rd16(b + p + 2); if (p + 4 + l > end) return 0;
         if (t == 0x0023) { c->tkt = p; c->tktn = l; }
-        else if (t == 0x0017) c->ems = p;
+        else if (t == 0x0017) { c->ems = p; c->emsAfterTkt = c->tkt >= 0; }
         else if (t == 0x002b && l >= 1) { int ll = b[p + 4]; for (int i = 0; i + 1 < ll && 1 + i + 1 < l + 1; i += 2) { int v = rd16(b + p + 5 + i); if ((v & 0xff00) == 0x0300 && v > c->maxver) c->maxver = v; } }
         else if (t == 0x0029) {
             c->psk = p; c->pskn = l; int q = p + 4, qe = q + l;
@@ -142,7 +149,14 @@ static int ch_mutate(unsigned char **pb, int *pn, int dtls, const mut_t *m)
     case MU_BINDER_XOR: if (c.psk < 0 || !c.b0n) return 0; b[c.b0 + 1 + m->pos % c.b0n] ^= x; return 1;
     case MU_SUITE_SWAP: { int hit = 0; for (int i = 0; i < c.nsuites; i++) if (rd16(b + c.suites + 2 + 2 * i) == m->suiteFrom) { wr16(b + c.suites + 2 + 2 * i, m->suiteTo); hit = 1; } return hit; }
     case MU_EMS_REMOVE: if (c.ems < 0) return 0; ch_splice(pb, pn, &c, c.ems, 4 + rd16(b + c.ems + 2), NULL, 0, FX_EXTS); return 1;
-    case MU_EMS_ADD: { if (c.ems >= 0 || c.exts < 0) return 0; static const unsigned char e[4] = { 0, 0x17, 0, 0 }; ch_splice(pb, pn, &c, c.exts + 2, 0, e, 4, FX_EXTS); return 1; }
+    case MU_EMS_ADD: {
+        /* placement matters: a server that judges the ticket while walking the extensions has not seen an extended_master_secret
+           that follows session_ticket (the order of MatrixSSL's and OpenSSL's hellos).  pos%4: 0 first, 1 last (before
+           pre_shared_key, which must stay last), 2 directly after session_ticket (last when there is none) */
+        if (c.ems >= 0 || c.exts < 0) return 0; static const unsigned char e[4] = { 0, 0x17, 0, 0 };
+        int last = c.psk >= 0 ? c.psk : c.total, at = c.exts + 2;
+        if (m->pos % 4 == 1) at = last; else if (m->pos % 4 == 2) at = c.tkt >= 0 ? c.tkt + 4 + c.tktn : last;
+        ch_splice(pb, pn, &c, at, 0, e, 4, FX_EXTS); return 1; }
     }
     return 0;
 }
@@ -210,6 +224,7 @@ typedef struct {
     int client, srv, cfgver, openFail; const char *label; int forged, chEdited, mustResume, mutApplied, crafted;
     int hasCH, maxver, chEms, nsuites; uint16_t suites[32];
     int psidn, ptktn, ppskn, pbindn; unsigned char psid[32], ptkt[320], ppsk[320], pbind[64];
+    int emsAfterTkt; uint32_t obfAge; long cliSkew;   /* hello order; obfuscated_ticket_age of the first PSK identity; client clock - server clock */
     uint64_t cliKeyd;           /* digest of the secret the presenting client holds (binder key for TLS 1.3) */
     int sawSH, negVer, negSuite, wireAbbrev, flagResumed, srvResumed, usedTicket, srvEms;
     uint64_t srvSecd;           /* server's master secret / chosen PSK right after its decision */
@@ -294,17 +309,17 @@ static sslSessionId_t *craft_sid(const cred_t *g, int asKind, int secretMode, co
 }
 
 /* ================= one handshake, observed ================= */
-typedef struct { int client, srv; mx_cfg cfg; sslSessionId_t *sid; mut_t mut; const char *label; int forged, crafted; int keepLive, abandonAfter; uint64_t cliKeyd; } hsreq;
+typedef struct { int client, srv; mx_cfg cfg; sslSessionId_t *sid; mut_t mut; const char *label; int forged, crafted; int keepLive, abandonAfter; uint64_t cliKeyd; long cliSkew; } hsreq;
 
 static void observe_ch(const unsigned char *b, int n, int dtls, ev_t *e)
 {
     chi c; if (!ch_parse(b, n, dtls, &c)) return;
-    e->hasCH = 1; e->maxver = c.maxver; e->chEms = c.ems >= 0;
+    e->hasCH = 1; e->maxver = c.maxver; e->chEms = c.ems >= 0; e->emsAfterTkt = c.emsAfterTkt;
     e->nsuites = c.nsuites > 32 ? 32 : c.nsuites; for (int i = 0; i < e->nsuites; i++) e->suites[i] = (uint16_t) rd16(b + c.suites + 2 + 2 * i);
     e->psidn = c.sidn; memcpy(e->psid, b + c.sidl + 1, c.sidn);
     e->ptktn = e->ppskn = e->pbindn = 0;
     if (c.tkt >= 0 && c.tktn > 0 && c.tktn <= 320) { e->ptktn = c.tktn; memcpy(e->ptkt, b + c.tkt + 4, c.tktn); }
-    if (c.psk >= 0 && c.id0n > 0 && c.id0n <= 320) { e->ppskn = c.id0n; memcpy(e->ppsk, b + c.id0 + 2, c.id0n); if (c.b0n <= 64) { e->pbindn = c.b0n; memcpy(e->pbind, b + c.b0 + 1, c.b0n); } }
+    if (c.psk >= 0 && c.id0n > 0 && c.id0n <= 320) { e->ppskn = c.id0n; memcpy(e->ppsk, b + c.id0 + 2, c.id0n); const unsigned char *a = b + c.id0 + 2 + c.id0n; e->obfAge = ((uint32_t) a[0] << 24) | (a[1] << 16) | (a[2] << 8) | a[3]; if (c.b0n <= 64) { e->pbindn = c.b0n; memcpy(e->pbind, b + c.b0 + 1, c.b0n); } }
 }
 
 static int srv_fatal(mx_ep *s, int *desc)
@@ -324,7 +339,8 @@ static void harvest(mx_conn *k, hsreq *rq, ev_t *e, flight *f)
             if (!e->complete || !p->isResumptionPsk || !p->pskId || cred_find(CK_PSK, p->pskId, p->pskIdLen) >= 0) continue;
             if (p->pskIdLen == e->ppskn && !memcmp(p->pskId, e->ppsk, e->ppskn)) continue;      /* what this hello presented (possibly crafted), not something the server issued */
             int i = cred_add(e, CK_PSK, p->pskId, p->pskIdLen, p->pskKey, p->pskLen, MX_TLS13, k->c.ssl->cipher ? k->c.ssl->cipher->ident : 0, 0, rq->srv, rq->client, 0);
-            if (i >= 0 && p->params) { CR[i].p13 = *p->params; CR[i].p13.sni = NULL; CR[i].p13.alpn = NULL; }
+            if (i >= 0 && p->params) { CR[i].p13 = *p->params; CR[i].p13.sni = NULL; CR[i].p13.alpn = NULL; /* crafted presenters start from a client clock that agreed with the server's at issue time (psTime_t is a struct timespec here) */
+                struct timespec ts; memcpy(&ts, &CR[i].p13.timestamp, sizeof ts); ts.tv_sec -= rq->cliSkew; memcpy(&CR[i].p13.timestamp, &ts, sizeof ts); }
         }
         return;
     }
@@ -340,7 +356,8 @@ static mx_conn *do_hs(hsreq *rq, ev_t *e, int *flightEncOut)
     mx_conn *k = calloc(1, sizeof *k);
     e->client = rq->client; e->srv = rq->srv; e->cfgver = rq->cfg.ver; e->label = rq->label; e->forged = rq->forged; e->crafted = rq->crafted; e->cliKeyd = rq->cliKeyd;
     rq->cfg.skeys = KS[rq->srv];
-    if (mx_conn_open(k, &rq->cfg, rq->sid) != 0) { e->openFail = 1; mx_conn_close(k); free(k); return NULL; }
+    e->cliSkew = g_cli_skew = rq->cliSkew;
+    if (mx_conn_open(k, &rq->cfg, rq->sid) != 0) { g_cli_skew = 0; e->openFail = 1; mx_conn_close(k); free(k); return NULL; }
     int dtls = k->dtls, mark = 0, enc = 0, lastEdit = -1, steps = 0, pref = 0;
     flight f; memset(&f, 0, sizeof f);
     while (steps < 400) {
@@ -394,6 +411,7 @@ static mx_conn *do_hs(hsreq *rq, ev_t *e, int *flightEncOut)
     e->srvFatal = srv_fatal(&k->s, &e->srvAlertDesc);
     if (!e->sawSH) e->negVer = -1;
     harvest(k, rq, e, &f);
+    g_cli_skew = 0;
     if (flightEncOut) *flightEncOut = enc;
     return k;
 }
@@ -464,6 +482,23 @@ static void inject_fault(mx_conn *k, int how, ev_t *e)
     e->srvFatal = srv_fatal(&k->s, &e->srvAlertDesc);
 }
 
+/* what the client's clock does between receiving a TLS 1.3 ticket and presenting it: the age it reports is its own business, the
+   server must judge the ticket's lifetime by its own clock.  Returns client clock - server clock for the presentation. */
+enum { SK_NONE = 0, SK_STOOD_STILL, SK_JUST_INSIDE, SK_HUGE, SK_BACKWARDS, SK_SLOW, SK_N };
+static const char *skname[] = { NULL, "client-clock-stood-still", "client-claims-age-just-inside-lifetime", "client-claims-huge-age", "client-clock-ran-backwards", "client-clock-slow" };
+static long skew_for(int mode, const cred_t *G)
+{
+    long age = mx_now - G->issued;
+    switch (mode) {
+    case SK_STOOD_STILL: return -age;                       /* reports age 0 */
+    case SK_JUST_INSIDE: return -age + LIFE_T13 - 1;        /* reports lifetime - 1 s, whatever the true age */
+    case SK_HUGE: return 40L * 86400L;                      /* reports more than 24.8 days (the library's millisecond difference saturates) */
+    case SK_BACKWARDS: return -age - 100;                   /* reports a negative age, i.e. about 2^32 ms */
+    case SK_SLOW: return -(age / 2) - (age & 1);            /* reports half the true age */
+    }
+    return 0;
+}
+
 static int exec_op(hist_t *h, int i)
 {
     op_t *o = &h->ops[i]; client_t *C = &CL[o->c % h->nc]; int c = o->c % h->nc; hsreq rq; ev_t *e;
@@ -478,6 +513,7 @@ static int exec_op(hist_t *h, int i)
     case OP_RESUME: case OP_RESUME_OTHER: case OP_RESUME_VER:
         rq.sid = C->sid; rq.cliKeyd = sid_keyd(C->sid);
         if (kind == OP_RESUME_OTHER) { rq.srv = !C->c.srv; rq.label = "foreign-server"; }
+        if (kind == OP_RESUME && C->c.ver == MX_TLS13 && o->a > 0 && o->a < SK_N && !h->quiet) { int g = (C->sid && C->sid->psk && C->sid->psk->pskId) ? cred_find(CK_PSK, C->sid->psk->pskId, C->sid->psk->pskIdLen) : -1; if (g >= 0) { rq.cliSkew = skew_for(o->a, &CR[g]); rq.label = skname[o->a]; } }
         if (kind == OP_RESUME_VER) { int nv = o->a % MX_NVER; const mx_suite_t *s = mx_suite_by_id(C->c.suite); if (nv == MX_DTLS10 || nv == C->c.ver || !s || !mx_suite_ok_for(s, nv)) return 0; rq.cfg.ver = nv; rq.label = "other-version"; }
         e = run_hs(i, kind, &rq, 1, NULL, NULL); if (e && h->quiet && kind == OP_RESUME) e->mustResume = 1; break;
     case OP_KEEP: {
@@ -522,9 +558,10 @@ static int exec_op(hist_t *h, int i)
         if (mx_now + dt - T0 > CLOCK_CAP) dt = 1;
         mx_now += dt; e = ev_new(EV_CLOCK, i, kind); if (e) e->dt = dt; break; }
     case OP_REPLAY: case OP_FORGE: case OP_RESUME_ABANDONED: {
-        int who = o->v % h->nc, g, asKind, secretMode = 0; mut_t m; memset(&m, 0, sizeof m);
+        int who = o->v % h->nc, g, asKind, secretMode = 0, cfgFlip = 0; mut_t m; memset(&m, 0, sizeof m);
         if (kind == OP_RESUME_ABANDONED) { g = C->abandoned; if (g < 0) return 0; secretMode = (o->a & 1) ? 3 : 2; rq.label = "never-completed-session"; rq.forged = 1; }
-        else if (kind == OP_REPLAY) { g = pick_cred_any(h->nc, who, o->a, -1, &who); secretMode = o->b % 3; if (secretMode) { rq.label = "stolen-credential"; rq.forged = 1; } if (o->d & 1) rq.srv = -2; }
+        else if (kind == OP_REPLAY) { g = pick_cred_any(h->nc, who, o->a, -1, &who); secretMode = o->b % 3; if (secretMode) { rq.label = "stolen-credential"; rq.forged = 1; } if (o->d & 1) rq.srv = -2;
+            int sk = (o->d >> 1) & 7; if (g >= 0 && CR[g].kind == CK_PSK && sk > 0 && sk < SK_N && !h->quiet) { rq.cliSkew = skew_for(sk, &CR[g]); if (!rq.label) rq.label = skname[sk]; } }
         else {
             int need = -1; m.kind = o->a % MU_N; m.pos = o->b; m.val = o->d & 0xff;
             if (m.kind >= MU_SID_TRUNC && m.kind <= MU_SID_SET) need = CK_SID; else if (m.kind >= MU_TKT_XOR && m.kind <= MU_TKT_NAME) need = CK_TICKET; else if (m.kind >= MU_PSKID_XOR && m.kind <= MU_BINDER_XOR) need = CK_PSK;
@@ -547,7 +584,14 @@ static int exec_op(hist_t *h, int i)
         ccfg_t vc = { G->ver, (uint16_t) G->suite, G->ems ? 0 : -1, G->kind == CK_TICKET, G->srv };
         if (rq.srv == -2) vc.srv = !G->srv;
         if (kind == OP_FORGE) {
-            if (m.kind == MU_EMS_REMOVE || m.kind == MU_EMS_ADD) m.kind = G->ems ? MU_EMS_REMOVE : MU_EMS_ADD;
+            if (m.kind == MU_EMS_REMOVE || m.kind == MU_EMS_ADD) {
+                /* pos%4 == 3: no wire edit, the (genuine) client is simply configured the other way round and builds the hello itself
+                   (session_ticket before extended_master_secret); otherwise the extension is removed from / inserted into the hello */
+                static const char *al[] = { "ems-added-first", "ems-added-last", "ems-added-after-ticket" };
+                m.kind = G->ems ? MU_EMS_REMOVE : MU_EMS_ADD;
+                if (m.pos % 4 == 3) { cfgFlip = 1; vc.ems = G->ems ? -1 : 0; rq.label = G->ems ? "ems-no-longer-offered-by-client" : "ems-now-offered-by-client"; m.kind = MU_NONE; }
+                else if (m.kind == MU_EMS_ADD) rq.label = al[m.pos % 4];
+            }
             if (m.kind == MU_SID_SET) { m.blen = 32; vf_fill(&XR, m.bytes, 32); if (m.val & 1) memcpy(m.bytes, G->b, 4); else { m.bytes[0] = (unsigned char) (m.pos % 32); m.bytes[1] = m.bytes[2] = m.bytes[3] = 0; } }
             if (m.kind == MU_TKT_NAME || m.kind == MU_PSKID_NAME) { vf_fill(&XR, m.bytes, 16); for (int j = 0; j < nk[vc.srv]; j++) if (memcmp(POOL[klist[vc.srv][j]].name, G->b, 16)) { memcpy(m.bytes, POOL[klist[vc.srv][j]].name, 16); break; } }
             if (m.kind == MU_SUITE_SWAP) { m.suiteFrom = (uint16_t) G->suite; m.suiteTo = other_suite((uint16_t) G->suite); }
@@ -559,7 +603,8 @@ static int exec_op(hist_t *h, int i)
         sslSessionId_t *sid = craft_sid(G, asKind, secretMode, C->partial, &XR, &rq.cliKeyd); if (!sid) return 0;
         if (kind == OP_FORGE && m.kind == MU_XVER && G->kind == CK_SID) sid->cipherId = 0x1301;   /* the TLS 1.3 hello carries the cached id as legacy_session_id */
         rq.sid = sid; e = run_hs(i, kind, &rq, 1, NULL, NULL);
-        if (e && kind == OP_FORGE && m.kind != MU_XVER && !e->mutApplied) { e->forged = 0; e->label = "mutation-not-applicable"; vf_stat("mutations_not_applicable", 1); }
+        if (e && cfgFlip && !(e->hasCH && e->chEms == !G->ems)) { e->forged = 0; e->label = "mutation-not-applicable"; vf_stat("mutations_not_applicable", 1); }
+        if (e && kind == OP_FORGE && m.kind != MU_XVER && !e->mutApplied && !cfgFlip) { e->forged = 0; e->label = "mutation-not-applicable"; vf_stat("mutations_not_applicable", 1); }
         if (e && h->quiet && kind == OP_REPLAY && secretMode == 0) e->mustResume = 1;
         matrixSslDeleteSessionId(sid); break; }
     case OP_ABANDON: {
@@ -605,6 +650,7 @@ static int exec_op(hist_t *h, int i)
 
 /* ================= the sequential model and its checker ================= */
 static int mk[2][48], mnk[2];
+static int g_sawEmsAfterTkt, g_sawExpiredClaimedFresh;   /* workload self-checks of the scripted histories that aim at these cases */
 static int model_key_loaded(int ks, int uid) { if (ks < 0 || uid < 0) return 0; for (int i = 0; i < mnk[ks]; i++) if (mk[ks][i] == uid) return 1; return 0; }
 static int model_find(int kind, const unsigned char *b, int n) { for (int i = nCR - 1; i >= 0; i--) if (CR[i].m_known && (kind < 0 || CR[i].kind == kind) && CR[i].len == n && !memcmp(CR[i].b, b, n)) return i; return -1; }
 static int model_find_secret(uint64_t d) { for (int i = nCR - 1; i >= 0; i--) if (CR[i].m_known && CR[i].secd == d) return i; return -1; }
@@ -673,6 +719,25 @@ static void check_history(const hist_t *h)
         vf_distinct("%s|%s|%s|%s|%s", opname[e->opkind], e->label ? e->label : "-", ckname[pk], vclass(e->negVer >= 0 ? e->negVer : e->cfgver), outcome(e));
         vf_statf(1, "outcome_%s", outcome(e));
         if (e->forged) vf_stat("forged_presentations", 1);
+        if (e->ptktn && e->chEms && !e->chEdited) vf_stat(e->emsAfterTkt ? "genuine_hellos_ticket_before_ems" : "genuine_hellos_ems_before_ticket", 1);
+        if (e->hasCH && pk != CK_PSK && pk != CK_NONE && e->negVer != MX_TLS13) {
+            int m = model_find(pk, pk == CK_TICKET ? e->ptkt : e->psid, pk == CK_TICKET ? e->ptktn : e->psidn);
+            if (m >= 0 && CR[m].ems != e->chEms) {
+                vf_statf(1, "ems_mismatch_%s_%s%s", ckname[pk], e->chEms ? "added" : "removed", e->chEms && pk == CK_TICKET ? (e->emsAfterTkt ? "_after_ticket" : "_before_ticket") : "");
+                if (e->chEms && pk == CK_TICKET && e->emsAfterTkt) g_sawEmsAfterTkt++;
+            }
+        }
+        if (e->ppskn && !e->chEdited) {
+            /* what age did the client claim for a ticket the model knows, against its age on the server's clock */
+            int m = model_find(CK_PSK, e->ppsk, e->ppskn);
+            if (m >= 0) {
+                long trueAge = e->t - CR[m].issued; uint32_t claimed = (uint32_t) (e->obfAge - CR[m].p13.ticketAgeAdd) / 1000;
+                int expd = trueAge > LIFE_T13, cl = claimed > (uint32_t) LIFE_T13;
+                vf_statf(1, "psk_%s_claimed_%s%s", expd ? "expired" : "unexpired", cl ? "expired" : "unexpired", e->srvResumed ? "_resumed" : "_not_resumed");
+                if ((long) claimed != trueAge) vf_stat("psk_presentations_with_wrong_claimed_age", 1);
+                if (expd && !cl && CR[m].secd == e->cliKeyd) g_sawExpiredClaimedFresh++;
+            }
+        }
         if (e->srvResumed) {
             vf_stat("resumptions_observed", 1);
             if (e->wireAbbrev != e->flagResumed) vf_stat("decision_flag_and_wire_disagree", 1);
@@ -725,9 +790,9 @@ static uint16_t def_suite(int ver) { return ver == MX_TLS13 ? 0x1301 : ver == MX
 static void h_client(int i, int ver, int kind, int ems, int srv) { H.cc[i] = (ccfg_t) { ver, def_suite(ver), ems, kind == CK_TICKET, srv }; }
 
 enum { T_PC = 0, T_TRUNC, T_XORID, T_FOREIGNID, T_STOLEN, T_EXPIRY, T_OVERFLOW, T_FATAL, T_SUITE, T_EMS, T_VERMIS, T_ABANDON, T_TKTXOR, T_TKTLEN, T_TKTNAME, T_KEYOPS, T_FOREIGNSRV,
-       T_13XOR, T_13BINDER, T_13NAME, T_XVER, T_EVICT, T_SIBLING, T_PAUSED, T_IDPLUSTICKET, T_N };
+       T_13XOR, T_13BINDER, T_13NAME, T_XVER, T_EVICT, T_SIBLING, T_PAUSED, T_IDPLUSTICKET, T_13AGE, T_N };
 static const char *tname[] = { "positive-control", "truncated-id", "edited-id", "foreign-id", "stolen-credential", "expiry", "long-idle", "fatal-alert", "suite-removed", "ems-differs", "version-differs",
-                               "abandoned-handshake", "edited-ticket", "ticket-length", "ticket-key-name", "ticket-key-ops", "foreign-server", "edited-psk-identity", "edited-binder", "psk-key-name", "cross-version-ticket", "eviction", "fatal-alert-sibling-connection", "paused-handshake", "id-and-ticket-in-one-hello" };
+                               "abandoned-handshake", "edited-ticket", "ticket-length", "ticket-key-name", "ticket-key-ops", "foreign-server", "edited-psk-identity", "edited-binder", "psk-key-name", "cross-version-ticket", "eviction", "fatal-alert-sibling-connection", "paused-handshake", "id-and-ticket-in-one-hello", "claimed-ticket-age" };
 typedef struct { int t, ver, kind, var; } sdesc;
 static sdesc SD[600]; static int nSD;
 static void sd_add(int t, int ver, int kind, int var) { if (nSD < 600) SD[nSD++] = (sdesc) { t, ver, kind, var }; }
@@ -761,6 +826,7 @@ static void build_script_index(void)
     sd_add(T_KEYOPS, MX_TLS13, CK_PSK, 0); sd_add(T_FOREIGNSRV, MX_TLS13, CK_PSK, 0); sd_add(T_FOREIGNSRV, MX_TLS13, CK_PSK, 1);
     for (int k = 0; k < (T ? 10 : 1); k++) sd_add(T_13XOR, MX_TLS13, CK_PSK, k);
     for (int k = 0; k < (T ? 3 : 1); k++) sd_add(T_13BINDER, MX_TLS13, CK_PSK, k);
+    for (int k = 0; k < 3; k++) sd_add(T_13AGE, MX_TLS13, CK_PSK, k);
     sd_add(T_13NAME, MX_TLS13, CK_PSK, 0); sd_add(T_XVER, MX_TLS12, CK_TICKET, 0); sd_add(T_XVER, MX_TLS11, CK_TICKET, 0); sd_add(T_XVER, MX_TLS12, CK_SID, 0); sd_add(T_XVER, MX_TLS11, CK_SID, 0);
 }
 
@@ -788,7 +854,14 @@ static void build_script(const sdesc *d, vf_rng *g)
         OPA(OP_CLOCK, 0, 0, 0, 0, 10); OPA(OP_REPLAY, 0, 0, 0, 0, 0); break;
     case T_FATAL: if (d->var & 2) OPA(OP_KEEP, 0, 0, 0, 0, 0); else OPA(OP_FULL, 0, 0, 0, 0, 0); OPA(OP_FATAL, 0, 0, d->var & 1, 0, 0); OPA(OP_REPLAY, 0, 0, 0, 0, 0); OPA(OP_RESUME, 0, 0, 0, 0, 0); break;
     case T_SUITE: OPA(OP_FULL, 0, 0, 0, 0, 0); OPA(OP_FORGE, 0, 0, MU_SUITE_SWAP, 0, 0); OPA(OP_REPLAY, 0, 0, 0, 0, 0); break;
-    case T_EMS: if (d->var) { H.cc[0].ems = -1; H.cc[1].ems = -1; } OPA(OP_FULL, 0, 0, 0, 0, 0); OPA(OP_FORGE, 0, 0, MU_EMS_REMOVE, 0, 0); OPA(OP_REPLAY, 0, 0, 0, 0, 0); break;
+    case T_EMS:
+        /* var 0: session with extended master secret, hello without (removed on the wire; client configured without);
+           var 1: session without, hello with it: inserted first / last / directly after session_ticket on the wire, and offered by the
+           client's own configuration (MatrixSSL's hello: session_ticket before extended_master_secret).  A fresh session before each
+           attempt: a refused attempt may legitimately cost the cache entry */
+        if (d->var) { H.cc[0].ems = -1; H.cc[1].ems = -1; }
+        for (int ps = 0; ps < 4; ps++) { if (!d->var && (ps == 1 || ps == 2)) continue; OPA(OP_FULL, 0, 0, 0, 0, 0); OPA(OP_FORGE, 0, 0, MU_EMS_REMOVE, ps, 0); }
+        OPA(OP_REPLAY, 0, 0, -1, 0, 0); break;
     case T_VERMIS: H.cc[0].suite = 0x008c; OPA(OP_FULL, 0, 0, 0, 0, 0); OPA(OP_RESUME_VER, 0, 0, d->var, 0, 0); OPA(OP_FULL, 0, 0, 0, 0, 0); OPA(OP_RESUME, 0, 0, 0, 0, 0); break;
     case T_ABANDON: OPA(OP_ABANDON, 0, 0, d->var, 0, 0); OPA(OP_RESUME_ABANDONED, 0, 0, 0, 0, 0); OPA(OP_ABANDON, 0, 0, d->var, 0, 0); OPA(OP_RESUME_ABANDONED, 0, 0, 1, 0, 0); OPA(OP_FULL, 0, 0, 0, 0, 0); OPA(OP_RESUME, 0, 0, 0, 0, 0); break;
     case T_TKTXOR: {
@@ -814,6 +887,24 @@ static void build_script(const sdesc *d, vf_rng *g)
         else { static const int p[] = { 0, 1, 15, 16, 31 }; for (int i = 0; i < 5; i++) OPA(OP_FORGE, 0, 0, MU_BINDER_XOR, p[i], 1 << vf_below(g, 8)); }
         for (int i = 0; i < 4; i++) OPA(OP_FORGE, 0, 0, MU_AGE_XOR, i, bit);
         OPA(OP_REPLAY, 0, 0, 0, 0, 0); break; }
+    case T_13AGE:
+        /* the client's clock is not the server's: REPLAY d = skew mode << 1, RESUME a = skew mode (the genuine client object) */
+        OPA(OP_FULL, 0, 0, 0, 0, 0);
+        if (d->var == 0) {          /* one second past the lifetime on the server's clock */
+            OPA(OP_CLOCK, 0, 0, 1, 0, 1);
+            OPA(OP_REPLAY, 0, 0, 0, 0, SK_STOOD_STILL << 1); OPA(OP_REPLAY, 0, 0, 0, 0, SK_JUST_INSIDE << 1); OPA(OP_REPLAY, 0, 0, 0, 0, SK_SLOW << 1);
+            OPA(OP_REPLAY, 0, 0, 0, 0, SK_HUGE << 1); OPA(OP_REPLAY, 0, 0, 0, 0, SK_BACKWARDS << 1); OPA(OP_RESUME, 0, 0, SK_STOOD_STILL, 0, 0);
+        } else if (d->var == 1) {   /* around the boundary: a fresh ticket with a wrong age (either answer is fine), then an expired one claiming to be fresh */
+            OPA(OP_CLOCK, 0, 0, 1, 0, -1); OPA(OP_REPLAY, 0, 0, 0, 0, SK_HUGE << 1); OPA(OP_REPLAY, 0, 0, 0, 0, SK_BACKWARDS << 1); OPA(OP_REPLAY, 0, 0, 0, 0, SK_STOOD_STILL << 1);
+            OPA(OP_CLOCK, 0, 0, 1, 0, 0); OPA(OP_REPLAY, 0, 0, 0, 0, SK_STOOD_STILL << 1);
+            OPA(OP_CLOCK, 0, 0, 1, 0, 1); OPA(OP_REPLAY, 0, 0, 0, 0, SK_STOOD_STILL << 1); OPA(OP_REPLAY, 0, 0, 0, 0, SK_JUST_INSIDE << 1);
+            OPA(OP_CLOCK, 0, 0, 0, 0, 5); OPA(OP_REPLAY, 0, 0, 0, 0, SK_STOOD_STILL << 1); OPA(OP_REPLAY, 0, 0, 0, 0, SK_SLOW << 1); OPA(OP_RESUME, 0, 0, SK_JUST_INSIDE, 0, 0);
+        } else {                    /* long expired, up to where the library's millisecond arithmetic saturates */
+            OPA(OP_CLOCK, 0, 0, 0, 0, 9); OPA(OP_REPLAY, 0, 0, 0, 0, SK_STOOD_STILL << 1); OPA(OP_REPLAY, 0, 0, 0, 0, SK_JUST_INSIDE << 1);
+            OPA(OP_CLOCK, 0, 0, 0, 0, 10); OPA(OP_REPLAY, 0, 0, 0, 0, SK_STOOD_STILL << 1); OPA(OP_REPLAY, 0, 0, 0, 0, SK_JUST_INSIDE << 1); OPA(OP_REPLAY, 0, 0, 0, 0, SK_BACKWARDS << 1);
+            OPA(OP_RESUME, 0, 0, SK_STOOD_STILL, 0, 0);
+        }
+        OPA(OP_FULL, 0, 0, 0, 0, 0); OPA(OP_RESUME, 0, 0, 0, 0, 0); break;
     case T_XVER: if (d->kind == CK_SID) { h_keys(0, 0); OPA(OP_FULL, 0, 0, 0, 0, 0); OPA(OP_FORGE, 1, 0, MU_XVER, 0, 0); OPA(OP_REPLAY, 1, 0, 0, 2, 0); OPA(OP_FULL, 0, 0, 0, 0, 0); OPA(OP_FORGE, 1, 0, MU_XVER, 0, 0); OPA(OP_REPLAY, 0, 0, -1, 0, 0); break; }
         h_client(1, MX_TLS13, CK_PSK, 0, 0); OPA(OP_FULL, 0, 0, 0, 0, 0); OPA(OP_FULL, 1, 0, 0, 0, 0); OPA(OP_FORGE, 1, 0, MU_XVER, 0, 0); OPA(OP_FORGE, 0, 1, MU_XVER, 0, 0); OPA(OP_REPLAY, 0, 0, 0, 0, 0); OPA(OP_REPLAY, 1, 1, 0, 0, 0); break;
     case T_SIBLING: OPA(OP_FULL, 0, 0, 0, 0, 0); OPA(OP_KEEP, 0, 0, 0, 0, 0);
@@ -851,9 +942,10 @@ static void build_random(vf_rng *g)
     while (H.nops < target) {
         int c = vf_below(g, 100) < 80 ? (int) vf_below(g, na) : (int) vf_below(g, H.nc), v = vf_below(g, 100) < 85 ? (int) vf_below(g, na) : (int) vf_below(g, H.nc);
         int w = (int) vf_below(g, 100), a = (int) vf_below(g, 1 << 16), b = (int) vf_below(g, 1 << 16), d = (int) vf_below(g, 1 << 16);
-        if (w < 17) OPA(OP_RESUME, c, 0, 0, 0, 0);
+        int sk1 = a % 16, sk2 = (b >> 1) % 12;   /* client clock behaviour for TLS 1.3 presentations (no extra draws) */
+        if (w < 17) OPA(OP_RESUME, c, 0, sk1 < SK_N ? sk1 : 0, 0, 0);
         else if (w < 24) OPA(OP_FULL, c, 0, 0, 0, 0);
-        else if (w < 35) OPA(OP_REPLAY, c, v, (a % 5) - 1, vf_below(g, 100) < 70 ? 0 : 1 + (b & 1), vf_below(g, 100) < 15);
+        else if (w < 35) OPA(OP_REPLAY, c, v, (a % 5) - 1, vf_below(g, 100) < 70 ? 0 : 1 + (b & 1), (vf_below(g, 100) < 15) | ((sk2 < SK_N ? sk2 : 0) << 1));
         else if (w < 57) OPA(OP_FORGE, c, v, 1 + a % (MU_N - 1), b, 1 << (d % 8));
         else if (w < 68) { if (vf_below(g, 100) < 60) OPA(OP_CLOCK, c, v, 1, (a % 5) - 1, (int) vf_below(g, 3) - 1); else OPA(OP_CLOCK, c, v, 0, 0, d % NDT); }
         else if (w < 72) OPA(OP_KEEP, c, 0, 0, 0, 0);
@@ -894,7 +986,10 @@ static void run_history(void *arg)
     }
     for (int i = 0; i < MAXLIVE; i++) live_close(i, 1);
     for (int i = 0; i <= MAXCL; i++) if (CL[i].sid) { matrixSslDeleteSessionId(CL[i].sid); CL[i].sid = NULL; }
+    g_sawEmsAfterTkt = g_sawExpiredClaimedFresh = 0;
     check_history(&H);
+    if (n < nSD && SD[n].t == T_13AGE && !g_sawExpiredClaimedFresh) vf_incon("hist=%d [%s]: no expired ticket was presented with a claimed age inside the lifetime (client clock offset ineffective)", n, H.name);
+    if (n < nSD && SD[n].t == T_EMS && SD[n].kind == CK_TICKET && SD[n].var == 1 && !g_sawEmsAfterTkt) vf_incon("hist=%d [%s]: no hello presented a non-EMS ticket followed by extended_master_secret", n, H.name);
     vf_stat("cases", done); vf_stat("histories", 1); vf_stat(n < nSD ? "histories_scripted" : "histories_random", 1); vf_stat("events", nEV); vf_stat("credentials_issued", nCR);
     vf_distinct("shape|%016llx|%s", (unsigned long long) shape, n < nSD ? H.name : "");
     if (n == 1 || n == nSD - 1 || n == nSD || n == nSD + 1) {
